@@ -5,6 +5,7 @@
 package bitdom
 
 import (
+	"fmt"
 	"sort"
 	"strings"
 )
@@ -91,6 +92,10 @@ func Xor(a, b Poly) Poly {
 	return out
 }
 
+// MaxProduct bounds the number of monomial products of one And; beyond it the
+// interpretation is abandoned (the caller reports the obligation undecided).
+var MaxProduct = 1 << 22
+
 func And(a, b Poly) Poly {
 	if a.IsZero() || b.IsZero() {
 		return Poly{}
@@ -100,6 +105,10 @@ func And(a, b Poly) Poly {
 	}
 	if b.IsOne() {
 		return a
+	}
+	if len(a)*len(b) > MaxProduct {
+		// the algebraic normal form of this condition is too large to decide here (e.g. an OR over dozens of free bits)
+		panic(abort{fmt.Errorf("ANF product of %d x %d monomials exceeds the budget", len(a), len(b))})
 	}
 	out := Poly{}
 	for ma := range a {
